@@ -17,6 +17,7 @@ import (
 	"runtime"
 	"runtime/debug"
 	"runtime/pprof"
+	"sort"
 	"strings"
 	"sync"
 	"sync/atomic"
@@ -175,6 +176,14 @@ func tomlFor(cfg *proto.Config) string {
 		sb.WriteString("  log = \"mutlog\"\n")
 	}
 	sb.WriteString("  [backend.metadata]\n  store = \"main\"\n")
+	var bks []string
+	for k := range cfg.Backends {
+		bks = append(bks, k)
+	}
+	sort.Strings(bks)
+	for _, k := range bks {
+		fmt.Fprintf(&sb, "  [backend.%s]\n  store = %s\n", q(k), q(cfg.Backends[k]))
+	}
 	if len(cfg.Caches) > 0 {
 		sb.WriteString("\n[cache]\n")
 		for id, mb := range cfg.Caches {
